@@ -935,8 +935,10 @@ func (rule *RuleExpression) checkMatrixExpression(expr *String) *ObjectType {
 	incTy, ok := matTy.Props["include"]
 	if ok {
 		delete(matTy.Props, "include")
+		known := false
 		if a, ok := incTy.(*ArrayType); ok {
 			if o, ok := a.Elem.(*ObjectType); ok {
+				known = o.IsStrict()
 				for n, p := range o.Props {
 					t, ok := matTy.Props[n]
 					if !ok {
@@ -946,6 +948,10 @@ func (rule *RuleExpression) checkMatrixExpression(expr *String) *ObjectType {
 					matTy.Props[n] = t.Merge(p)
 				}
 			}
+		}
+		if !known {
+			// What the elements of 'include' add is unknown. Any property may be defined by them
+			matTy.Loose()
 		}
 	}
 
